@@ -19,6 +19,10 @@ pub struct Live<const L: usize> {
     pub json_done: usize,
 }
 
+/// `J` lines are bulky (two full texts and a dozen variants per reload): at most this many reloads per
+/// process print them (the thorough tier runs thousands of reload histories per process).
+static JSON_BUDGET: std::sync::atomic::AtomicUsize = std::sync::atomic::AtomicUsize::new(400);
+
 fn hex(s: &str) -> String {
     let mut o = String::with_capacity(s.len() * 2);
     for b in s.bytes() {
@@ -226,7 +230,9 @@ impl<const L: usize> Live<L> {
         }
         let mut line = format!("r={} {} sh={}", out.token(), main, sh);
         if let Op::Reload(mode) = op {
-            if sh == "ok" && self.json_done < 3 && self.book.get_orders().len() <= 60 {
+            if sh == "ok" && self.json_done < 3 && self.book.get_orders().len() <= 60
+                && JSON_BUDGET.fetch_update(std::sync::atomic::Ordering::SeqCst, std::sync::atomic::Ordering::SeqCst, |b| b.checked_sub(1)).is_ok()
+            {
                 self.json_done += 1;
                 for l in self.json_lines(mode) {
                     line.push('\n');
